@@ -84,10 +84,15 @@ def v2_terms(sb, spec):
         return sb.leaf([metric_slot(k)], lambda v: W[k][nd if v is ABSENT else v])
 
     def all_nd(group):
-        slots = sorted(metric_slot(k) for k in group)
+        from .interp import mk_and
+
         fo = sb.st.folder()
-        sl, rows = fo.rows(slots)
-        return fo.simplify(Fin(sl, dict((r, all(x in (ABSENT, nd) for x in r)) for r in rows)))
+        cs = []
+        for k in group:
+            s = metric_slot(k)
+            cs.append(fo.simplify(Fin((s,), dict(((x,), x in (ABSENT, nd)) for x in fo.domain(s)))))
+        c = mk_and(cs)
+        return sb.ev.try_fold_bool(sb.st, c) if not isinstance(c, (Fin, Const)) else c
 
     one = sb.num("1")
     r1 = lambda x: sb.quant(x, "0.1", HALF_UP)
